@@ -71,7 +71,16 @@ def corpus():
     base = [['add', 0, 1, {'a': 1}], ['add', 2, 1, {'a': 1}], ['commit']]
     return [dict(cfg=dict(shape='blog', strategy='validity'), prog=base + [['link', 1, 1], ['flush'], ['unlink', 1, 1], ['commit']]),
             dict(cfg=dict(shape='blog', strategy='subquery'), prog=base + [['link', 1, 1], ['commit'], ['unlink', 1, 1], ['flush'], ['link', 1, 1], ['commit']]),
-            dict(cfg=dict(shape='blog', strategy='subquery'), prog=base + [['link', 1, 1], ['flush'], ['del', 2, 1], ['commit']])]
+            dict(cfg=dict(shape='blog', strategy='subquery'), prog=base + [['link', 1, 1], ['flush'], ['del', 2, 1], ['commit']]),
+            # a link that existed before: unlink, link, unlink over three flushes of one transaction
+            dict(cfg=dict(shape='blog', strategy='validity'),
+                 prog=base + [['link', 1, 1], ['commit'], ['unlink', 1, 1], ['flush'], ['link', 1, 1], ['flush'], ['unlink', 1, 1],
+                              ['commit'], ['set', 0, 1, {'a': 2}], ['commit']]),
+            # association statements while the unit of work exists but has no transaction record yet (a flush of
+            # nothing but a non-versioned object came first); the record is created by a later flush
+            dict(cfg=dict(shape='blog', strategy='validity'),
+                 prog=base + [['add', 3, 1, {'a': 0}], ['flush'], ['rawlink', 1, 1], ['set', 0, 1, {'a': 2}], ['commit'],
+                              ['set', 3, 1, {'a': 1}], ['flush'], ['rawunlink', 1, 1], ['set', 0, 1, {'a': 3}], ['commit']])]
 
 
 def nontrivial(case, obs):
